@@ -46,6 +46,12 @@ func (sb *schemaBuilder) getType(nodeType reflect.Type, forceListEntryNonNull bo
 		return &graphql.NonNull{Type: &graphql.Enum{Type: typeName, Values: values, ReverseMap: sb.enumMappings[nodeType].ReverseMap}}, nil
 	}
 
+	// A named type that is a scalar by its underlying kind only (type Level int)
+	// and marshals itself as text is written as a string: advertise it as one.
+	if isTextMarshalingScalarAlias(nodeType) {
+		return sb.getTextMarshalerType(nodeType)
+	}
+
 	if typeName, ok := getScalar(nodeType); ok {
 		scalar := &graphql.Scalar{Type: typeName}
 		if nodeType.Kind() == reflect.Slice {
@@ -104,6 +110,23 @@ func (sb *schemaBuilder) getType(nodeType reflect.Type, forceListEntryNonNull bo
 	default:
 		return nil, fmt.Errorf("bad type %s: should be a scalar, slice, or struct type", nodeType)
 	}
+}
+
+// isTextMarshalingScalarAlias reports whether typ (or the type it points to) is
+// not one of the scalar types itself but an alias of one that implements
+// encoding.TextMarshaler.
+func isTextMarshalingScalarAlias(typ reflect.Type) bool {
+	elem := typ
+	if elem.Kind() == reflect.Ptr {
+		elem = elem.Elem()
+	}
+	if _, exact := scalars[elem]; exact {
+		return false
+	}
+	if _, ok := getScalar(elem); !ok {
+		return false
+	}
+	return typ.Implements(textMarshalerType)
 }
 
 // getTextMarshalerType returns a graphQL type that can be used to parse a
